@@ -292,6 +292,13 @@ class Filer(hioing.Mixin):
         if os.path.isabs(name):
             raise hioing.FilerError(f"Not relative {name=} path.")
 
+        # ensure base and name together do not climb out of the tail directory
+        inner = os.path.normpath(os.path.join(base, name))
+        if (inner == os.path.pardir or
+                inner.startswith(os.path.pardir + os.path.sep)):
+            raise hioing.FilerError(f"Path outside head directory for {base=} "
+                                    f"{name=}.")
+
         if temp:
             headDirPath = tempfile.mkdtemp(prefix=self.TempPrefix,
                                            suffix=self.TempSuffix,
